@@ -95,6 +95,26 @@ func (p c10) Run(c *core.Ctx) {
 			g.SetTag(h, "Any0", "wire", []string{"cv", "Cv"}[c.Rng.Intn(2)])
 			c.Count("populations_with_case_variant_names", 1)
 		}
+		if c.Rng.Intn(4) == 0 {
+			// several providers answer a single-valued func point with the same result, one of them un-named
+			// (preferred): the choice is determined, whatever order they are enumerated in
+			kt := []int{5, 10, 12, 13}
+			var made []int
+			for x := 0; x < 3; x++ {
+				t := kt[c.Rng.Intn(len(kt))]
+				name := fmt.Sprintf("kz%d", x)
+				if x == 0 && !g.HasUnnamed(t) {
+					name = ""
+				}
+				k := g.AddNode(t, name)
+				g.Sc.Nodes[k].Kind = "kz"
+				made = append(made, k)
+			}
+			h := g.AddNode(4, "kzholder")
+			g.SetTag(h, "Any1", "func", "Kind,returns=kz")
+			g.SetTag(h, "AnyS", "func", "Kind,returns=kz,required=false")
+			c.Count("populations_with_tied_breaking_func_points", 1)
+		}
 		n := len(g.Sc.Nodes)
 		mix := TagMix{ByType: 4, Func: 0.4, ByName: 0.4, PQualifier: 0.3, POptional: 0.4}
 		// self-candidate holders: by-type points on interfaces the holder implements itself
@@ -160,6 +180,14 @@ func (p c10) Run(c *core.Ctx) {
 		}
 		c.Rng.Shuffle(len(depPPs), func(i, j int) { depPPs[i], depPPs[j] = depPPs[j], depPPs[i] })
 		opt.Extra = append(opt.Extra, depPPs...)
+		// a factory post-processor that inspects the registered components (fresh per run, registered at a
+		// seeded position): what it sees is part of the compared outcome
+		catalog := &world.CatalogFactoryPP{}
+		if c.Rng.Intn(2) == 0 {
+			opt.ExtraFirst = append(opt.ExtraFirst, catalog)
+		} else {
+			opt.Extra = append(opt.Extra, catalog)
+		}
 		if len(dups) > 0 {
 			// the duplicates take part in the registration permutation: before or after the nodes
 			if c.Rng.Intn(2) == 0 {
@@ -279,6 +307,7 @@ func (p c10) Run(c *core.Ctx) {
 				c.Count("runs_with_a_fixed_runner_sequence", 1)
 			}
 		}
+		wiring += ";catalog=" + fmt.Sprint(catalog.Seen) + ":" + fmt.Sprintf("%x", len(catalog.Names))
 		var descs []string
 		for _, d := range depPPs {
 			descs = append(descs, d.(world.Describer).Describe())
